@@ -136,14 +136,45 @@ def c17_2(ctx, r):
     r.check(okt, "a field is dropped only when its value equals the declared default", key_of(d, "drop condition"), d.loc(lp), f"drop condition is `{ctx.src(tests[0].test) if tests else None}`", "yields the same ... flags")
     pops = [n for n in iter_own(d.node) if isinstance(n, ast.Call) and ctx.src(n.func) == "data.pop"]
     r.check(all(any(l is lp for l in ctx.enclosing(d, n, (ast.For,))) for n in pops) and len(pops) == 1, "nothing else is removed from the dict", key_of(d, "pops"), d.loc(), f"{len(pops)} pops")
-    sp = ctx.cls("SubmitterParams").methods.get("dict")
-    for n in [x for x in iter_own(sp.node) if isinstance(x, ast.Call) and ctx.src(x.func) == "data.pop"]:
-        fld = n.args[0].value if isinstance(n.args[0], ast.Constant) else None
-        forms = [f for cn in ctx.nodes_of(sp, n) for f, p in guard_forms(ctx, sp, cn) if p]
-        okn = any(f.replace("'", '"') == f'data["{fld}"] is None' for f in forms)
-        v = ctx.cls("SubmitterParams").ann_values.get(fld)
-        dflt = isinstance(v, ast.Call) and any(k.arg == "default" and ctx.src(k.value) == "None" for k in v.keywords)
-        r.check(okn and dflt, f"SubmitterParams drops '{fld}' only when None (its default)", key_of(sp, f"drops {fld}"), sp.loc(n), f"SubmitterParams.dict() drops '{fld}' under {forms}")
+    spc = ctx.cls("SubmitterParams")
+    sp = spc.methods.get("dict")
+    if sp is not None:
+        def default_of(fld):
+            v = spc.ann_values.get(fld)
+            if isinstance(v, ast.Call):
+                for k in v.keywords:
+                    if k.arg == "default":
+                        return ctx.src(k.value)
+            return "<required>"
+
+        pops = [x for x in iter_own(sp.node) if isinstance(x, ast.Call) and ctx.src(x.func) in ("data.pop", "data.__delitem__")]
+        comps = [x for x in iter_own(sp.node) if isinstance(x, ast.DictComp)]
+        dels = [x for x in iter_own(sp.node) if isinstance(x, ast.Delete)]
+        recognised = False
+        for n in pops:
+            recognised = True
+            fld = n.args[0].value if isinstance(n.args[0], ast.Constant) else None
+            forms = [f for cn in ctx.nodes_of(sp, n) for f, p in guard_forms(ctx, sp, cn) if p]
+            okn = any(f.replace("'", '"') == f'data["{fld}"] is None' for f in forms)
+            r.check(okn and default_of(fld) == "None", f"SubmitterParams drops '{fld}' only when None (its default)", key_of(sp, f"drops {fld}"), sp.loc(n), f"SubmitterParams.dict() drops '{fld}' under {forms} (default {default_of(fld)})")
+        for c in comps:
+            recognised = True
+            g = c.generators[0]
+            conds = [ctx.src(i).replace(" ", "") for i in g.ifs]
+            if "data.items()" in ctx.src(g.iter) and conds in (["visnotNone"], ["notvisNone"]):
+                # every field that may hold None is dropped when None: each must default to None
+                for fld, ann in sorted(spc.ann_fields.items()):
+                    if "Optional" in ctx.src(ann):
+                        r.check(default_of(fld) == "None", f"dropping None-valued '{fld}' is lossless (default None)", key_of(sp, f"drops None-valued {fld}"), sp.loc(c),
+                                f"SubmitterParams.dict() drops every None-valued key, but `{fld}` is Optional with default {default_of(fld)}: a group with {fld}=None is written without the key and reloads as {default_of(fld)}",
+                                "loading it back yields the same ... groups")
+            else:
+                raise AnalysisError("C17.2", f"SubmitterParams.dict filters with an unrecognised comprehension: {ctx.src(c)[:80]}")
+        if dels:
+            raise AnalysisError("C17.2", "SubmitterParams.dict uses del (unrecognised idiom)")
+        if not recognised:
+            rets = [x for x in iter_own(sp.node) if isinstance(x, ast.Return)]
+            r.check(all(ctx.src(x.value) in ("data", "super().dict(*args, **kwargs)") for x in rets), "SubmitterParams.dict drops nothing", key_of(sp, "dict shape"), sp.loc(), "SubmitterParams.dict has an unrecognised shape")
     gp = ctx.fn("GenericCommandParameters.serialize", "C17.2")
     r.check("return self._model.dict()" in ctx.src(gp.node), "a job serialises as its model's dict()", key_of(gp, "serialize"), gp.loc(), "GenericCommandParameters.serialize changed")
     gd = ctx.fn("GenericCommandParameters.deserialize", "C17.2")
